@@ -38,18 +38,20 @@ type unitA struct {
 }
 
 type auA struct {
-	Track     int     `json:"track"`
-	PTS       int64   `json:"pts"`
-	DTS       int64   `json:"dts"`
-	NTP       int64   `json:"ntp"`
-	RA        bool    `json:"ra"`
-	NonIDR    bool    `json:"nonidr"`
-	HasParams bool    `json:"hasparams"`
-	Params    int64   `json:"params"`
-	RpsArg    int     `json:"rpsarg,omitempty"` // H265 only, not seen by the model: slice-header argument that fixes pts - dts
-	Poc       int     `json:"poc,omitempty"`    // H264 in a reorder history, not seen by the model: pic_order_cnt_lsb of the slice header
-	BSlice    bool    `json:"bslice,omitempty"` // H264 in a reorder history: the slice is a B slice
-	Units     []unitA `json:"units"`
+	Track     int   `json:"track"`
+	PTS       int64 `json:"pts"`
+	DTS       int64 `json:"dts"`
+	NTP       int64 `json:"ntp"`
+	RA        bool  `json:"ra"`
+	NonIDR    bool  `json:"nonidr"`
+	HasParams bool  `json:"hasparams"`
+	Params    int64 `json:"params"`
+	RpsArg    int   `json:"rpsarg,omitempty"` // H265 only, not seen by the model: slice-header argument that fixes pts - dts
+	// BadSPS (init-failure leg only, outside the model): the access unit is a lone malformed H264 SPS
+	BadSPS bool    `json:"badsps,omitempty"`
+	Poc    int     `json:"poc,omitempty"`    // H264 in a reorder history, not seen by the model: pic_order_cnt_lsb of the slice header
+	BSlice bool    `json:"bslice,omitempty"` // H264 in a reorder history: the slice is a B slice
+	Units  []unitA `json:"units"`
 }
 
 type history struct {
@@ -68,6 +70,10 @@ type history struct {
 	// H264Reorder selects the H264 concretisation with real slice headers and pic_order_cnt_type 0
 	// parameter sets (h264.go); histories recorded before it existed replay with the legacy layout.
 	H264Reorder bool `json:"h264reorder,omitempty"`
+	// Leg names a search-only leg outside the model (no T leg): "init-failure" (C04: histories whose
+	// init-file regeneration fails once, see genInitFailure), "slow-reader" (C05). Empty for model histories
+	// and for the storage-fault histories (those are recognised by Faults).
+	Leg string `json:"leg,omitempty"`
 	// Stats: counters of the generator (what it produced), reported in the distribution; not an input
 	Stats map[string]int `json:"stats,omitempty"`
 }
@@ -576,4 +582,85 @@ func genHistory(r *rng.R, long bool) history {
 		h.Ops = append(h.Ops, a)
 	}
 	return h
+}
+
+// outsideModel: histories of the search-only legs (storage faults, init failure, slow reader) have no T leg
+func (h *history) outsideModel() bool { return len(h.Faults) > 0 || h.Leg != "" }
+
+// genInitFailure turns a generated history into one of the init-failure leg (C04, outside the model):
+// a single-stream fMP4 muxer with an H264 track that receives, at a few places, a parameter-set-only
+// access unit with a malformed SPS (WriteH264 accepts it: it carries no slices) followed by IDR units
+// without in-band parameter sets. The parameter change forces a rotation; when the segment opened by it
+// is published the init file has to be regenerated, that fails, and that one WriteH264 returns an
+// error; the writer goes on, and later units carry valid parameter sets again. Returns false when the
+// history has no H264 track to work with.
+func genInitFailure(r *rng.R, h *history) bool {
+	vt := -1
+	for i, t := range h.Tracks {
+		if t.Kind == kH264 {
+			vt = i
+		}
+	}
+	if vt < 0 || h.Variant == 1 {
+		return false
+	}
+	// single stream, plain fMP4: the configurations in which the unchanged muxer recovers from a failed
+	// rotation (DESIGN.md 12.6, observation O1)
+	h.Variant = 2
+	h.Tracks = []tcfgA{h.Tracks[vt]}
+	var ops []auA
+	for _, a := range h.Ops {
+		if a.Track == vt {
+			a.Track = 0
+			// legacy H264 layout (dts = pts): with parameter sets withheld the picture-order bookkeeping
+			// of a reorder history would no longer describe what the muxer's extractor sees
+			a.PTS, a.Poc, a.BSlice = a.DTS, 0, false
+			ops = append(ops, a)
+		}
+	}
+	h.Ops = ops
+	h.H264Reorder = false
+	h.Leg = "init-failure"
+	// a window opens shortly after an IDR unit that carried parameter sets (the muxer's DTS extractor
+	// needs one SPS before anything else) and lasts for at least two IDR units and two and a half
+	// SegmentMinDuration, so that the forced rotation and the failing one both fall into it
+	var ras []int
+	for i, a := range ops {
+		if a.RA && a.HasParams {
+			ras = append(ras, i)
+		}
+	}
+	if len(ras) == 0 {
+		return false
+	}
+	windows := 1 + r.Intn(3)
+	n := 0
+	from := 0
+	for w := 0; w < windows; w++ {
+		var cand []int
+		for _, i := range ras {
+			if i >= from {
+				cand = append(cand, i)
+			}
+		}
+		if len(cand) == 0 {
+			break
+		}
+		pos := cand[r.Intn((len(cand)+1)/2)] + 1 + r.Intn(3)
+		if pos >= len(ops) {
+			break
+		}
+		keys := 2 + r.Intn(4)
+		start := ops[pos].DTS
+		ops[pos].RA, ops[pos].NonIDR, ops[pos].HasParams, ops[pos].Params, ops[pos].BadSPS = false, false, false, 0, true
+		n++
+		for pos++; pos < len(ops) && (keys > 0 || (ops[pos].DTS-start)*1e9/90000 < 5*h.SegMin/2); pos++ {
+			ops[pos].HasParams, ops[pos].Params = false, 0
+			if ops[pos].RA {
+				keys--
+			}
+		}
+		from = pos + 1
+	}
+	return n > 0
 }
